@@ -1,5 +1,349 @@
-import ChibiVerif.Spec.IntSpec
-import ChibiVerif.Gen.CommonTypeGen
+/-
+C01 — integer expressions have the C11 value and the C11 type.
+
+Property theorems only (definitions and helper lemmas: Lemmas/C01Lemmas, C01OpLemmas, C01ArithLemmas).
+
+Objects:
+* `Gen.CommonType.getCommonType`, `opRule`  — regenerated from type.c on every check (translator);
+* `Gen.CastTable.castTable`, `getTypeId`     — regenerated from codegen.c on every check (translator);
+* `C01Codegen.cast / genBinop / genUnop / typeBinary / typeUnary` — hand model of the integer arms of codegen.c / add_type,
+  tied by assembly-text equality with `chibicc -S` on all operator × 9×9 type pairs;
+* `X86.run` — instruction semantics, tied to the host CPU;
+* `Spec.IntSpec` — C11 6.3.1 / 6.5, tied to gcc.
+`Represents t r v` is the representation invariant of codegen.c (Lemmas/C01Lemmas).
+
+Every theorem is for all register contents (2^64 each) / all operand values, not samples.
+-/
+import ChibiVerif.Lemmas.C01ArithLemmas
+
 namespace ChibiVerif.Props.C01
-theorem C01_placeholder : True := trivial
+open ChibiVerif.C01 ChibiVerif.X86 ChibiVerif.Asm ChibiVerif.Spec.IntSpec ChibiVerif.Gen.CommonType ChibiVerif.C01Codegen
+
+/-! ## typing -/
+
+/-- **`get_common_type` is the usual arithmetic conversion (C11 6.3.1.8)** on every pair of the nine integer types:
+    the descriptor it returns is exactly the type object of the C11 common type. -/
+theorem C01_common_type :
+    ∀ t1 ∈ ITy.all, ∀ t2 ∈ ITy.all,
+      getCommonType (descr t1) (descr t2) = .ty (descr (usualArith t1 t2)) := by
+  decide
+
+/-- … and with enumerated types (compatible with `int`: 4 bytes, signed) on either side the result has the size and
+    signedness C11 prescribes (the descriptor may be the enumerated type itself). -/
+theorem C01_common_type_enum :
+    ∀ d1 ∈ allDescr, ∀ d2 ∈ allDescr,
+      (resTy (getCommonType d1 d2)).bind ityOf =
+        (ityOf d1).bind fun a => (ityOf d2).bind fun b => some (usualArith a b) := by
+  decide
+
+/-- a pointer meeting an integer (comparison with 0, `p + n` after scaling) or a pointer: the result is the pointer type
+    (8 bytes, compared unsigned) -/
+theorem C01_common_type_ptr :
+    ∀ d ∈ allDescr ++ [ty_ptr],
+      getCommonType ty_ptr d = .ptrToBaseOf ty_ptr ∧
+      (d.hasBase = false → getCommonType d ty_ptr = .ty ty_ptr) := by
+  decide
+
+/-- the C11 operator a node kind of `add_type`'s switch stands for (`a > b` is parsed as `b < a`) -/
+def specOp : NK → Option BinOp
+  | .ND_ADD => some .add | .ND_SUB => some .sub | .ND_MUL => some .mul | .ND_DIV => some .div | .ND_MOD => some .mod
+  | .ND_BITAND => some .band | .ND_BITOR => some .bor | .ND_BITXOR => some .bxor
+  | .ND_SHL => some .shl | .ND_SHR => some .shr
+  | .ND_EQ => some .eq | .ND_NE => some .ne | .ND_LT => some .lt | .ND_LE => some .le
+  | _ => none
+
+def specUnOp : NK → Option UnOp
+  | .ND_NEG => some .neg | .ND_BITNOT => some .bitnot | .ND_NOT => some .lognot
+  | _ => none
+
+def binaryOps : List (NK × BinOp) :=
+  [(.ND_ADD, .add), (.ND_SUB, .sub), (.ND_MUL, .mul), (.ND_DIV, .div), (.ND_MOD, .mod), (.ND_BITAND, .band),
+   (.ND_BITOR, .bor), (.ND_BITXOR, .bxor), (.ND_SHL, .shl), (.ND_SHR, .shr), (.ND_EQ, .eq), (.ND_NE, .ne),
+   (.ND_LT, .lt), (.ND_LE, .le)]
+
+/-- **the `add_type` table gives every binary operator the C11 operand conversions and result type** (6.5.5 – 6.5.12):
+    for every operator and every pair of the nine integer types, both operands are converted to the C11 common type
+    (shifts: the left operand is promoted, the right operand is left alone) and the node gets the C11 result type. -/
+theorem C01_op_type :
+    ∀ p ∈ binaryOps, ∀ t1 ∈ ITy.all, ∀ t2 ∈ ITy.all,
+      specOp p.1 = some p.2 ∧
+      typeBinary p.1 (descr t1) (descr t2) =
+        some (descr (binopOperandType p.2 t1 t2),
+              (if p.2.isShift then none else some (descr (binopOperandType p.2 t1 t2))),
+              descr (binopType p.2 t1 t2)) := by
+  decide
+
+/-- unary `-`, `~` promote their operand and have the promoted type; `!` leaves it alone and has type `int` (6.5.3.3) -/
+theorem C01_unop_type :
+    ∀ p ∈ [(NK.ND_NEG, UnOp.neg), (NK.ND_BITNOT, UnOp.bitnot), (NK.ND_NOT, UnOp.lognot)], ∀ t ∈ ITy.all,
+      specUnOp p.1 = some p.2 ∧
+      typeUnary p.1 (descr t) =
+        some ((if p.2 = .lognot then none else some (descr (promote t))), descr (unopType p.2 t)) := by
+  decide
+
+/-! ## conversions -/
+
+/-- **every cell of the generated cast table among the integer types, and the `_Bool` conversion, is the C11 conversion**
+    (6.3.1.2, 6.3.1.3): for every source and target type, every machine state whose `%rax` represents `v` in the source
+    type, the emitted sequence runs and leaves `%rax` representing `convert to v`. -/
+theorem C01_cast (frm to : ITy) (s : State) (v : Int) (h : Represents frm (s.get .rax) v) :
+    ∃ s', X86.run (castSeq frm to) s = some s' ∧ Represents to (s'.get .rax) (convert to v) := by
+  obtain ⟨k, hk⟩ := castSeq_classified frm to
+  rw [classify_sound hk]
+  obtain ⟨s', h1, h2⟩ := k.effect s
+  exact ⟨s', h1, h2 ▸ cast_arith frm to k hk _ _ h⟩
+
+example : Represents .i8 (0xdeadbeef_ffffff80#64) (-128) := ⟨by decide, by decide⟩
+
+/-! ## binary operators -/
+
+/-! which analysed sequence the model (over the generated tables) selects for each (operator, type): by evaluation -/
+theorem sel_ND_ADD_i32 : classifyOp (opSeq .ND_ADD .i32) = some .add32 := by decide +kernel
+theorem sel_ND_ADD_u32 : classifyOp (opSeq .ND_ADD .u32) = some .add32 := by decide +kernel
+theorem sel_ND_ADD_i64 : classifyOp (opSeq .ND_ADD .i64) = some .add64 := by decide +kernel
+theorem sel_ND_ADD_u64 : classifyOp (opSeq .ND_ADD .u64) = some .add64 := by decide +kernel
+theorem sel_ND_SUB_i32 : classifyOp (opSeq .ND_SUB .i32) = some .sub32 := by decide +kernel
+theorem sel_ND_SUB_u32 : classifyOp (opSeq .ND_SUB .u32) = some .sub32 := by decide +kernel
+theorem sel_ND_SUB_i64 : classifyOp (opSeq .ND_SUB .i64) = some .sub64 := by decide +kernel
+theorem sel_ND_SUB_u64 : classifyOp (opSeq .ND_SUB .u64) = some .sub64 := by decide +kernel
+theorem sel_ND_MUL_i32 : classifyOp (opSeq .ND_MUL .i32) = some .mul32 := by decide +kernel
+theorem sel_ND_MUL_u32 : classifyOp (opSeq .ND_MUL .u32) = some .mul32 := by decide +kernel
+theorem sel_ND_MUL_i64 : classifyOp (opSeq .ND_MUL .i64) = some .mul64 := by decide +kernel
+theorem sel_ND_MUL_u64 : classifyOp (opSeq .ND_MUL .u64) = some .mul64 := by decide +kernel
+theorem sel_ND_DIV_i32 : classifyOp (opSeq .ND_DIV .i32) = some .divs32 := by decide +kernel
+theorem sel_ND_DIV_u32 : classifyOp (opSeq .ND_DIV .u32) = some .divu32 := by decide +kernel
+theorem sel_ND_DIV_i64 : classifyOp (opSeq .ND_DIV .i64) = some .divs64 := by decide +kernel
+theorem sel_ND_DIV_u64 : classifyOp (opSeq .ND_DIV .u64) = some .divu64 := by decide +kernel
+theorem sel_ND_MOD_i32 : classifyOp (opSeq .ND_MOD .i32) = some .mods32 := by decide +kernel
+theorem sel_ND_MOD_u32 : classifyOp (opSeq .ND_MOD .u32) = some .modu32 := by decide +kernel
+theorem sel_ND_MOD_i64 : classifyOp (opSeq .ND_MOD .i64) = some .mods64 := by decide +kernel
+theorem sel_ND_MOD_u64 : classifyOp (opSeq .ND_MOD .u64) = some .modu64 := by decide +kernel
+theorem sel_ND_BITAND_i32 : classifyOp (opSeq .ND_BITAND .i32) = some .and32 := by decide +kernel
+theorem sel_ND_BITAND_u32 : classifyOp (opSeq .ND_BITAND .u32) = some .and32 := by decide +kernel
+theorem sel_ND_BITAND_i64 : classifyOp (opSeq .ND_BITAND .i64) = some .and64 := by decide +kernel
+theorem sel_ND_BITAND_u64 : classifyOp (opSeq .ND_BITAND .u64) = some .and64 := by decide +kernel
+theorem sel_ND_BITOR_i32 : classifyOp (opSeq .ND_BITOR .i32) = some .or32 := by decide +kernel
+theorem sel_ND_BITOR_u32 : classifyOp (opSeq .ND_BITOR .u32) = some .or32 := by decide +kernel
+theorem sel_ND_BITOR_i64 : classifyOp (opSeq .ND_BITOR .i64) = some .or64 := by decide +kernel
+theorem sel_ND_BITOR_u64 : classifyOp (opSeq .ND_BITOR .u64) = some .or64 := by decide +kernel
+theorem sel_ND_BITXOR_i32 : classifyOp (opSeq .ND_BITXOR .i32) = some .xor32 := by decide +kernel
+theorem sel_ND_BITXOR_u32 : classifyOp (opSeq .ND_BITXOR .u32) = some .xor32 := by decide +kernel
+theorem sel_ND_BITXOR_i64 : classifyOp (opSeq .ND_BITXOR .i64) = some .xor64 := by decide +kernel
+theorem sel_ND_BITXOR_u64 : classifyOp (opSeq .ND_BITXOR .u64) = some .xor64 := by decide +kernel
+theorem sel_ND_EQ_i32 : classifyOp (opSeq .ND_EQ .i32) = some .eq32 := by decide +kernel
+theorem sel_ND_EQ_u32 : classifyOp (opSeq .ND_EQ .u32) = some .eq32 := by decide +kernel
+theorem sel_ND_EQ_i64 : classifyOp (opSeq .ND_EQ .i64) = some .eq64 := by decide +kernel
+theorem sel_ND_EQ_u64 : classifyOp (opSeq .ND_EQ .u64) = some .eq64 := by decide +kernel
+theorem sel_ND_NE_i32 : classifyOp (opSeq .ND_NE .i32) = some .ne32 := by decide +kernel
+theorem sel_ND_NE_u32 : classifyOp (opSeq .ND_NE .u32) = some .ne32 := by decide +kernel
+theorem sel_ND_NE_i64 : classifyOp (opSeq .ND_NE .i64) = some .ne64 := by decide +kernel
+theorem sel_ND_NE_u64 : classifyOp (opSeq .ND_NE .u64) = some .ne64 := by decide +kernel
+theorem sel_ND_LT_i32 : classifyOp (opSeq .ND_LT .i32) = some .lts32 := by decide +kernel
+theorem sel_ND_LT_u32 : classifyOp (opSeq .ND_LT .u32) = some .ltu32 := by decide +kernel
+theorem sel_ND_LT_i64 : classifyOp (opSeq .ND_LT .i64) = some .lts64 := by decide +kernel
+theorem sel_ND_LT_u64 : classifyOp (opSeq .ND_LT .u64) = some .ltu64 := by decide +kernel
+theorem sel_ND_LE_i32 : classifyOp (opSeq .ND_LE .i32) = some .les32 := by decide +kernel
+theorem sel_ND_LE_u32 : classifyOp (opSeq .ND_LE .u32) = some .leu32 := by decide +kernel
+theorem sel_ND_LE_i64 : classifyOp (opSeq .ND_LE .i64) = some .les64 := by decide +kernel
+theorem sel_ND_LE_u64 : classifyOp (opSeq .ND_LE .u64) = some .leu64 := by decide +kernel
+theorem sel_ND_SHL_i32 : classifyOp (opSeq .ND_SHL .i32) = some .shl32 := by decide +kernel
+theorem sel_ND_SHL_u32 : classifyOp (opSeq .ND_SHL .u32) = some .shl32 := by decide +kernel
+theorem sel_ND_SHL_i64 : classifyOp (opSeq .ND_SHL .i64) = some .shl64 := by decide +kernel
+theorem sel_ND_SHL_u64 : classifyOp (opSeq .ND_SHL .u64) = some .shl64 := by decide +kernel
+theorem sel_ND_SHR_i32 : classifyOp (opSeq .ND_SHR .i32) = some .sar32 := by decide +kernel
+theorem sel_ND_SHR_u32 : classifyOp (opSeq .ND_SHR .u32) = some .shr32 := by decide +kernel
+theorem sel_ND_SHR_i64 : classifyOp (opSeq .ND_SHR .i64) = some .sar64 := by decide +kernel
+theorem sel_ND_SHR_u64 : classifyOp (opSeq .ND_SHR .u64) = some .shr64 := by decide +kernel
+
+/-- the sequence the model selects for `(k, t)` is one of the analysed sequences and computes the C11 operation -/
+theorem binop_selected (k : NK) (op : BinOp) (hop : specOp k = some op) (hns : op.isShift = false)
+    (t : ITy) (ht : t = .i32 ∨ t = .u32 ∨ t = .i64 ∨ t = .u64) :
+    ∃ kind, classifyOp (opSeq k t) = some kind ∧ kind.Computes op t := by
+  cases k <;> simp [specOp] at hop <;> subst hop <;> simp [BinOp.isShift] at hns
+  case ND_ADD =>
+    rcases ht with rfl | rfl | rfl | rfl
+    · exact ⟨_, sel_ND_ADD_i32, add_i32⟩
+    · exact ⟨_, sel_ND_ADD_u32, add_u32'⟩
+    · exact ⟨_, sel_ND_ADD_i64, add_i64⟩
+    · exact ⟨_, sel_ND_ADD_u64, add_u64'⟩
+  case ND_SUB =>
+    rcases ht with rfl | rfl | rfl | rfl
+    · exact ⟨_, sel_ND_SUB_i32, sub_i32⟩
+    · exact ⟨_, sel_ND_SUB_u32, sub_u32'⟩
+    · exact ⟨_, sel_ND_SUB_i64, sub_i64⟩
+    · exact ⟨_, sel_ND_SUB_u64, sub_u64'⟩
+  case ND_MUL =>
+    rcases ht with rfl | rfl | rfl | rfl
+    · exact ⟨_, sel_ND_MUL_i32, mul_i32⟩
+    · exact ⟨_, sel_ND_MUL_u32, mul_u32'⟩
+    · exact ⟨_, sel_ND_MUL_i64, mul_i64⟩
+    · exact ⟨_, sel_ND_MUL_u64, mul_u64'⟩
+  case ND_DIV =>
+    rcases ht with rfl | rfl | rfl | rfl
+    · exact ⟨_, sel_ND_DIV_i32, div_i32⟩
+    · exact ⟨_, sel_ND_DIV_u32, div_u32⟩
+    · exact ⟨_, sel_ND_DIV_i64, div_i64⟩
+    · exact ⟨_, sel_ND_DIV_u64, div_u64⟩
+  case ND_MOD =>
+    rcases ht with rfl | rfl | rfl | rfl
+    · exact ⟨_, sel_ND_MOD_i32, mod_i32⟩
+    · exact ⟨_, sel_ND_MOD_u32, mod_u32⟩
+    · exact ⟨_, sel_ND_MOD_i64, mod_i64⟩
+    · exact ⟨_, sel_ND_MOD_u64, mod_u64⟩
+  case ND_BITAND =>
+    rcases ht with rfl | rfl | rfl | rfl
+    · exact ⟨_, sel_ND_BITAND_i32, and_i32⟩
+    · exact ⟨_, sel_ND_BITAND_u32, and_u32⟩
+    · exact ⟨_, sel_ND_BITAND_i64, and_i64⟩
+    · exact ⟨_, sel_ND_BITAND_u64, and_u64⟩
+  case ND_BITOR =>
+    rcases ht with rfl | rfl | rfl | rfl
+    · exact ⟨_, sel_ND_BITOR_i32, or_i32⟩
+    · exact ⟨_, sel_ND_BITOR_u32, or_u32⟩
+    · exact ⟨_, sel_ND_BITOR_i64, or_i64⟩
+    · exact ⟨_, sel_ND_BITOR_u64, or_u64⟩
+  case ND_BITXOR =>
+    rcases ht with rfl | rfl | rfl | rfl
+    · exact ⟨_, sel_ND_BITXOR_i32, xor_i32⟩
+    · exact ⟨_, sel_ND_BITXOR_u32, xor_u32⟩
+    · exact ⟨_, sel_ND_BITXOR_i64, xor_i64⟩
+    · exact ⟨_, sel_ND_BITXOR_u64, xor_u64⟩
+  case ND_EQ =>
+    rcases ht with rfl | rfl | rfl | rfl
+    · exact ⟨_, sel_ND_EQ_i32, eq_i32⟩
+    · exact ⟨_, sel_ND_EQ_u32, eq_u32⟩
+    · exact ⟨_, sel_ND_EQ_i64, eq_i64⟩
+    · exact ⟨_, sel_ND_EQ_u64, eq_u64⟩
+  case ND_NE =>
+    rcases ht with rfl | rfl | rfl | rfl
+    · exact ⟨_, sel_ND_NE_i32, ne_i32⟩
+    · exact ⟨_, sel_ND_NE_u32, ne_u32⟩
+    · exact ⟨_, sel_ND_NE_i64, ne_i64⟩
+    · exact ⟨_, sel_ND_NE_u64, ne_u64⟩
+  case ND_LT =>
+    rcases ht with rfl | rfl | rfl | rfl
+    · exact ⟨_, sel_ND_LT_i32, lt_i32⟩
+    · exact ⟨_, sel_ND_LT_u32, lt_u32⟩
+    · exact ⟨_, sel_ND_LT_i64, lt_i64⟩
+    · exact ⟨_, sel_ND_LT_u64, lt_u64⟩
+  case ND_LE =>
+    rcases ht with rfl | rfl | rfl | rfl
+    · exact ⟨_, sel_ND_LE_i32, le_i32⟩
+    · exact ⟨_, sel_ND_LE_u32, le_u32⟩
+    · exact ⟨_, sel_ND_LE_i64, le_i64⟩
+    · exact ⟨_, sel_ND_LE_u64, le_u64⟩
+
+/-- **add / sub / imul / and / or / xor at 32 and 64 bits, `cdq; idiv`, `cqo; idiv`, `mov $0,%edx; div`, and the relations
+    `== != < <=` signed and unsigned via `cmp; setcc; movzb`**: for every such operator `k`, every computation type `t`
+    (int, unsigned, long, unsigned long), every machine state in which `%rax` / `%rdi` represent the (converted) operands
+    `va` / `vb`, if C11 defines `va op vb` in type `t` (no signed overflow, no division by zero, no INT_MIN / -1) then the
+    emitted sequence runs without a CPU fault and leaves `%rax` representing the C11 result in the C11 result type. -/
+theorem C01_binop (k : NK) (op : BinOp) (hop : specOp k = some op) (hns : op.isShift = false)
+    (t : ITy) (ht : t = .i32 ∨ t = .u32 ∨ t = .i64 ∨ t = .u64)
+    (s : State) (va vb x : Int)
+    (ha : Represents t (s.get .rax) va) (hb : Represents t (s.get .rdi) vb)
+    (hx : arith op t va vb = some x) :
+    ∃ s', X86.run (opSeq k t) s = some s' ∧ Represents (binopType op t t) (s'.get .rax) x := by
+  obtain ⟨kind, hk, hc⟩ := binop_selected k op hop hns t ht
+  rw [classifyOp_sound hk]
+  obtain ⟨y, hy, hr⟩ := hc _ _ _ _ _ ha hb hx
+  have he := kind.effect s
+  simp only [hy] at he
+  obtain ⟨s', h1, h2⟩ := he
+  exact ⟨s', h1, h2 ▸ hr⟩
+
+example : arith .div .i32 (-7) 2 = some (-3) := by decide
+example : arith .add .i32 2147483647 1 = none := by decide
+
+/-- `a > b`, `a >= b` are compiled as `b < a`, `b <= a` (parse.c `relational`): same value -/
+theorem C01_rel_swapped (t : ITy) (a b : Int) :
+    arith .gt t a b = arith .lt t b a ∧ arith .ge t a b = arith .le t b a := by
+  simp [arith]
+
+theorem shift_selected (k : NK) (op : BinOp) (hop : specOp k = some op) (hs : op.isShift = true)
+    (t : ITy) (ht : t = .i32 ∨ t = .u32 ∨ t = .i64 ∨ t = .u64) :
+    ∃ kind, classifyOp (opSeq k t) = some kind ∧ kind.ComputesShift op t := by
+  cases k <;> simp [specOp] at hop <;> subst hop <;> simp [BinOp.isShift] at hs
+  case ND_SHL =>
+    rcases ht with rfl | rfl | rfl | rfl
+    · exact ⟨_, sel_ND_SHL_i32, shl_i32⟩
+    · exact ⟨_, sel_ND_SHL_u32, shl_u32⟩
+    · exact ⟨_, sel_ND_SHL_i64, shl_i64⟩
+    · exact ⟨_, sel_ND_SHL_u64, shl_u64⟩
+  case ND_SHR =>
+    rcases ht with rfl | rfl | rfl | rfl
+    · exact ⟨_, sel_ND_SHR_i32, shr_i32⟩
+    · exact ⟨_, sel_ND_SHR_u32, shr_u32⟩
+    · exact ⟨_, sel_ND_SHR_i64, shr_i64⟩
+    · exact ⟨_, sel_ND_SHR_u64, shr_u64⟩
+
+/-- **`<<`, `>>` via `mov %rdi,%rcx; shl/shr/sar %cl`**: left operand of promoted type `t`, right operand of *any* integer
+    type `t2` (it is not converted); if C11 defines the shift (count in range, and for signed `<<` a non-negative left
+    operand whose product is representable) the sequence leaves the C11 result: logical shift for unsigned `t`,
+    arithmetic for signed `t`. -/
+theorem C01_shift (k : NK) (op : BinOp) (hop : specOp k = some op) (hs : op.isShift = true)
+    (t : ITy) (ht : t = .i32 ∨ t = .u32 ∨ t = .i64 ∨ t = .u64) (t2 : ITy)
+    (s : State) (va vb x : Int)
+    (ha : Represents t (s.get .rax) va) (hb : Represents t2 (s.get .rdi) vb)
+    (hx : arith op t va vb = some x) :
+    ∃ s', X86.run (opSeq k t) s = some s' ∧ Represents t (s'.get .rax) x := by
+  obtain ⟨kind, hk, hc⟩ := shift_selected k op hop hs t ht
+  rw [classifyOp_sound hk]
+  obtain ⟨y, hy, hr⟩ := hc t2 _ _ _ _ _ ha hb hx
+  have he := kind.effect s
+  simp only [hy] at he
+  obtain ⟨s', h1, h2⟩ := he
+  exact ⟨s', h1, h2 ▸ hr⟩
+
+example : arith .shr .i32 (-101) 1 = some (-51) := by decide
+example : arith .shl .i32 (-1) 1 = none := by decide
+
+/-! ## unary operators -/
+
+/-- **`neg %rax`, `not %rax`** on an operand already promoted to `t`: the C11 value of `-a` / `~a` whenever defined. -/
+theorem C01_unop (k : NK) (op : UnOp) (hop : specUnOp k = some op) (hne : op ≠ .lognot)
+    (t : ITy) (ht : t = .i32 ∨ t = .u32 ∨ t = .i64 ∨ t = .u64)
+    (s : State) (v x : Int) (h : Represents t (s.get .rax) v) (hx : unop op t v = some x) :
+    ∃ s', X86.run (unSeq k t) s = some s' ∧ Represents t (s'.get .rax) x := by
+  cases k <;> simp [specUnOp] at hop <;> subst hop
+  · -- ND_NEG
+    have hseq : unSeq .ND_NEG t = UnKind.neg.seq := by rcases ht with rfl | rfl | rfl | rfl <;> rfl
+    rw [hseq]
+    obtain ⟨s', h1, h2⟩ := UnKind.neg.effect s
+    exact ⟨s', h1, h2 ▸ neg_computes t ht _ _ _ h hx⟩
+  · exact absurd rfl hne
+  · -- ND_BITNOT
+    have hseq : unSeq .ND_BITNOT t = UnKind.not.seq := by rcases ht with rfl | rfl | rfl | rfl <;> rfl
+    rw [hseq]
+    obtain ⟨s', h1, h2⟩ := UnKind.not.effect s
+    exact ⟨s', h1, h2 ▸ not_computes t ht _ _ _ h hx⟩
+
+/-- **`!a` via `cmp $0; sete; movzx`** on an operand of any of the nine integer types (unpromoted): `int` 1 iff `a == 0`. -/
+theorem C01_lognot (t : ITy) (s : State) (v : Int) (h : Represents t (s.get .rax) v) :
+    ∃ s', X86.run (unSeq .ND_NOT t) s = some s' ∧ Represents .i32 (s'.get .rax) (b2i (v = 0)) := by
+  have hseq : unSeq .ND_NOT t = (if t.size = 8 then UnKind.lognot64 else UnKind.lognot32).seq := by cases t <;> rfl
+  rw [hseq]
+  obtain ⟨s', h1, h2⟩ := (if t.size = 8 then UnKind.lognot64 else UnKind.lognot32).effect s
+  exact ⟨s', h1, h2 ▸ lognot_computes t _ _ h⟩
+
+/-! ## `++` / `--` (parse.c `new_inc_dec`) -/
+
+/-- region of the known finding C01-bool-postfix-incdec -/
+def BoolPostfixIncDec (T : ITy) : Prop := T = .bool
+instance (T : ITy) : Decidable (BoolPostfixIncDec T) := by unfold BoolPostfixIncDec; exact inferInstance
+
+/-- full statement: chibicc's rewriting of postfix `++`/`--` has the C11 value and side effect whenever C11 defines it.
+    False for `_Bool` (Findings/C01.lean). -/
+def C01_incdec_Statement : Prop :=
+  ∀ (T : ITy) (x addend : Int), T.inRange x → (addend = 1 ∨ addend = -1) →
+    ∀ res, specPostfix T x addend = some res → chibiPostfix T x addend = some res
+
+/-- **postfix `++`/`--`**, outside the known-finding region (operand of type `_Bool`) -/
+theorem C01_incdec_partial (T : ITy) (hT : ¬ BoolPostfixIncDec T) (x addend : Int) (hx : T.inRange x)
+    (ha : addend = 1 ∨ addend = -1) (res : Int × Int) (h : specPostfix T x addend = some res) :
+    chibiPostfix T x addend = some res :=
+  incdec_value T hT x addend hx ha res h
+
+example : specPostfix .u8 255 1 = some (255, 0) := by decide
+
 end ChibiVerif.Props.C01
